@@ -9,6 +9,11 @@ LEVEL = "model_checking"
 CFG = "SPECIFICATION Spec\nCONSTANTS\n  Order <- %s\n  EmitCases = %s\nINVARIANTS Precedence Emit\nCHECK_DEADLOCK FALSE\n"
 
 
+TEXT_OPTIONS = ["log-file", "pid-file", "stats-format", "stats-http-addr", "stats-http-port", "sflow-addr", "sflow-topic",
+                "sflow-mirror-addr", "ipfix-addr", "ipfix-topic", "ipfix-mirror-addr", "ipfix-tpl-cache-file", "netflow5-addr", "netflow5-topic",
+                "netflow9-addr", "netflow9-topic", "netflow9-tpl-cache-file", "mq-name", "mq-config-file"]
+
+
 def yaml_val(kind, v):
     if kind == "string":
         return json.dumps(v)
@@ -190,6 +195,16 @@ def check(ctx):
         if others:
             ctx.violation("setting option %s changed other options: %s" % (f["yaml"], others), {"case": c})
     ctx.traces_validated += len(cases)
+    # the options that are TEXT at the pinned commit take a quoted number from the file as that text (a port written as "8081"),
+    # whatever type the option has in the tree under test
+    qcases = [{"id": k, "env": {}, "file": '%s: "%d"\n' % (key, 18000 + k), "cli": []} for k, key in enumerate(TEXT_OPTIONS)]
+    for c, key, r in zip(qcases, TEXT_OPTIONS, run(qcases)):
+        ctx.count(["quoted-number", key])
+        got = {x["yaml"]: x["val"] for x in r.get("fields", [])}
+        if r.get("panic") or str(got.get(key)) != str(18000 + c["id"]):
+            ctx.violation('option %s: the configuration file says %s: "%d" (a quoted number, text like every value of this option); the '
+                          "option is %r" % (key, key, 18000 + c["id"], "a panic" if r.get("panic") else got.get(key)), {"case": c}, key="quoted:" + key)
+    ctx.traces_validated += len(qcases)
     reload_stage(ctx, drv, d)
     ctx.extra["options_covered"] = len(fields)
     ctx.sample({"case": cases[len(cases) // 2], "expected_winner": meta[len(cases) // 2][2]["winner"]})
